@@ -13,15 +13,16 @@ CHECKS = {}
 EXTRA = {
  "X07": dict(
   title="modular networks (control nodes) are activated step by step as specified, both solvers settle on the topological definition, and Flush makes them fresh",
-  text="ModularAct.tla extends the solver specification to networks with control (MIMO) nodes - multiply / max / min modules whose inputs and outputs are ordinary nodes - and transcribes both solvers step by step: the standard network (per node Activation, ActivationsCount, lastActivation, lastActivation2, isActive; per control node isActive; LoadSensors, the sweep of ActivateSteps = sums, ActivateNode of the active neurons, then ActivateModule of every control node in list order reading GetActiveOut of its inputs and writing its single output node with setActivation; ActivateSteps / Activate / ForwardSteps with their error results; RecursiveSteps and Relax, which refuse; Flush; ReadOutputs; NodeCount / LinkCount; the modular MaxActivationDepth = largest edge count among the MINIMUM-WEIGHT input-output paths of the graph with control nodes as vertices) and the fast solver built by FastNetworkSolver (signal arrays over bias|input|output|hidden, module list over positions; forwardStep = accumulate, activate, modules in list order over the being-processed array, move; ForwardSteps, Relax with and without relaxation test, RecursiveSteps which refuses, Flush, LoadSensors, ReadOutputs, NodeCount / LinkCount), next to the definition MTopoEval (a node written by a control node has the product / max / min of the values of that control node's inputs, the last writer wins, its own links and activation function play no part; every other neuron is activation(sum of weight x source)). TLC builds every network of a bounded scope (simple DAGs and, in the recurrent family, arbitrary digraphs with self-loops, cycles, time-delayed and bias links; one or two control nodes with one to two inputs, placed everywhere incl. fed by sensors, writing hidden or output nodes, chained in both list orders, with zero / one / two outputs), lets an instance live through every history of API calls, flushes it and runs every suffix side by side with a fresh twin, and checks: Settles (on a network of the class - effective graph acyclic, one output per control node, control nodes read only what earlier control nodes wrote, every neuron sensor-reachable, no time-delayed links for the standard solver, no sensor-fed control node for the fast solver - once Need sweeps / steps have run since the last LoadSensors, or a Relax found a step that changed nothing, the outputs equal MTopoEval and the call succeeded, for each solver, hence the solvers agree), FlushRestores and SuffixEqual (after Flush everything the API shows coincides with a fresh twin after every later call), CountsAgree (NodeCount = ordinary + control nodes on both; LinkCount = ordinary links + control links in and out on both when no bias links were merged), DepthTwoWays (the transcribed depth = its definition over explicit path sets), Refusals (RecursiveSteps fails on both solvers and changes nothing). Every network is built for real three ways (network API + NewModularNetwork, modular genome + Genesis, bias passed explicitly) and after EVERY call outputs, returned flag, error class of both solvers and per node Activation / ActivationsCount / GetActiveOut / GetActiveOutTd are compared == with the specification (violation on mismatch), lastActivation / lastActivation2 / isActive / control isActive / both signal arrays as information; the settle law is asserted on the real outputs independently of the prediction; the flushed instance is compared with a real fresh twin after every suffix call; ForwardSteps(Need) on fresh instances must give MTopoEval for every input vector; counts, depth, refusals and control-node accessors are compared.",
-  note="Exhaustive within (BFS, one canonical link order per link set, weights dealt by a fixed sign/magnitude pattern unless stated): quick - {2 inputs, 2 hidden, output}: every simple DAG up to 2 links x every two-input control node (3 module functions, inputs anywhere incl. sensors, output any neuron) x 2 activation schemes, no dead parts, histories <= 3 calls (first a load; 2 vectors, ForwardSteps 1/2, ActivateSteps|Relax 2) and suffixes of <= 2; {2 inputs, 3 hidden, output} with 2 links and TWO control nodes (mul then max) in both list orders; {input, hidden, output} every digraph up to 2 links incl. self-loops / cycles / time-delayed links x one- and two-input control nodes, alphabet + Activate|Relax(3,0) + RecursiveSteps; control nodes with 0 / 1 / 2 outputs; {input, 2 hidden, output} up to 3 links with both weights per link (depth family). Thorough adds: up to 3 links on the first shape, a bias shape and free weights, two schemes and histories without load-first on the recurrent family (incl. {input, bias, hidden, output}), three-input modules, longer histories, and five model-sanity runs (each `should` statement must FAIL on the as-coded model). Per history the replayer runs a rotating selection of the network's suffixes (3 quick / 4 thorough) against a fresh twin, plus every suffix as its own history. OBSERVATIONS (recorded in coverage.modular.observations with the smallest network seen, never a violation; each is also a `should` invariant that TLC refutes on the model): (1) fast solver: a control node fed DIRECTLY by a sensor (input or bias) reads 0 - forwardStep takes the module inputs from neuronSignalsBeingProcessed, which LoadSensors never writes (fast_network.go:276) - while the standard solver reads the sensor value; the two solvers disagree for ever (e.g. input 1 -> mul control node -> hidden 5 -> output 8: Network -2, fast 0). The library's own modular test network feeds its module through hidden linear relay nodes. (2) both solvers: the order of Network.controlNodes matters - a control node reading the output node of a control node LATER in the list never sees that module's value, because the output node is re-activated from its own (absent) links before the modules run in the next sweep; the solvers agree with each other but never reach the topological value. (3) MaxActivationDepth() of a modular network (network.go:490) is the edge count of a minimum-WEIGHT path (gonum JohnsonAllPaths + AllBetween with connection weights as costs, control nodes counted as vertices), not the longest path: it over-counts two edges per control node and under-counts as soon as a lighter shorter path exists (1 -> 8 with weight -1 next to 1 -> 5 -> [mul] -> 6 -> 8: depth 1, two steps needed), so ForwardSteps(MaxActivationDepth()) may stop early; documented as `the maximum number of neuron layers`. (4) RecursiveSteps is unusable on modular networks for BOTH implementations of Solver (Network: MaxActivationDepthWithCap refuses; fast: refuses when modules exist), and Network.Relax is not implemented - only ForwardSteps / ActivateSteps / fast Relax work. (5) a control node with two outgoing links: the standard solver returns an error, the fast solver PANICS (index out of range, fast_network.go:281) after writing the first output; with no outgoing link the standard solver errors and the fast solver carries on. (6) Network.Flush walks allNodes, which excludes control nodes: their isActive stays raised (unobservable through the API). (7) the module's output node does NOT pass the module value through its own activation function, and any ordinary links into it are dead; in the standard solver that node is activated twice per sweep (ActivationsCount +2, lastActivation = activation(0 + its links)), so time-delayed links out of a module output read that intermediate value. Not covered: modules with no input (max -> -Inf, min -> MaxFloat64), control nodes writing sensors, parallel links, non-integer values (C12's float rounds cover the arithmetic of ordinary neurons), NaN. Trusted: TLC, the replayer's construction of networks / genomes, the verif accessors VerifState (internal level only).",
+  text="ModularAct.tla extends the solver specification to networks with control (MIMO) nodes - multiply / max / min modules whose inputs and outputs are ordinary nodes - and transcribes both solvers step by step: the standard network (per node Activation, ActivationsCount, lastActivation, lastActivation2, isActive; per control node isActive; LoadSensors, the sweep of ActivateSteps = sums, ActivateNode of the active neurons, then ActivateModule of every control node in list order reading GetActiveOut of its inputs and writing its single output node with setActivation; ActivateSteps / Activate / ForwardSteps with their error results; RecursiveSteps and Relax, which refuse; Flush; ReadOutputs; NodeCount / LinkCount; the modular MaxActivationDepth = largest edge count among the MINIMUM-WEIGHT input-output paths of the graph with control nodes as vertices) and the fast solver built by FastNetworkSolver (signal arrays over bias|input|output|hidden, module list over positions; forwardStep = accumulate, activate, modules in list order over the being-processed array, move; ForwardSteps, Relax with and without relaxation test, RecursiveSteps which refuses, Flush, LoadSensors, ReadOutputs, NodeCount / LinkCount), next to the definition MTopoEval (a node written by a control node has the product / max / min of the values of that control node's inputs, the last writer wins, its own links and activation function play no part; every other neuron is activation(sum of weight x source)). TLC builds every network of a bounded scope (simple DAGs and, in the recurrent family, arbitrary digraphs with self-loops, cycles, time-delayed and bias links; one or two control nodes with one to two inputs, placed everywhere incl. fed by sensors, writing hidden or output nodes, chained in both list orders, with zero / one / two outputs), lets an instance live through every history of API calls, flushes it and runs every suffix side by side with a fresh twin, and checks: Settles (on a network of the class - effective graph acyclic, one output per control node, control nodes read only what earlier control nodes wrote, every neuron sensor-reachable, no time-delayed links for the standard solver, no sensor-fed control node for the fast solver - once Need sweeps / steps have run since the last LoadSensors, or a Relax found a step that changed nothing, the outputs equal MTopoEval and the call succeeded unless it is one of the calls refused by design, for each solver, hence the solvers agree), FlushRestores and SuffixEqual (after Flush everything the API shows coincides with a fresh twin after every later call), CountsAgree (NodeCount = ordinary + control nodes on both; LinkCount = ordinary links + control links in and out on both when no bias links were merged), DepthTwoWays (the transcribed depth = its definition over explicit path sets), Refusals (RecursiveSteps fails on both solvers and changes nothing; zero requested steps: error on the standard solver, (false, nil) on the fast one, nothing changes). Every network is built for real three ways (network API + NewModularNetwork, modular genome + Genesis, bias passed explicitly) and after EVERY call outputs, returned flag, error class of both solvers and per node Activation / ActivationsCount / GetActiveOut / GetActiveOutTd are compared == with the specification (violation on mismatch), lastActivation / lastActivation2 / isActive / control isActive / both signal arrays as information; the settle law is asserted on the real outputs independently of the prediction; the flushed instance is compared with a real fresh twin after every suffix call; ForwardSteps(Need) on fresh instances must give MTopoEval for every input vector; counts, depth, refusals and control-node accessors are compared.",
+  note="Exhaustive within (BFS, one canonical link order per link set, weights dealt by a fixed sign/magnitude pattern unless stated): quick - {2 inputs, 2 hidden, output}: every simple DAG up to 2 links x every two-input control node (3 module functions, inputs anywhere incl. sensors, output any neuron) x 2 activation schemes, no dead parts, histories <= 3 calls (first a load; 2 vectors, ForwardSteps 1/2, ActivateSteps|Relax 2) and suffixes of <= 2; {2 inputs, 3 hidden, output} with 2 links and TWO control nodes (mul then max) in both list orders; {input, hidden, output} every digraph up to 2 links incl. self-loops / cycles / time-delayed links x one- and two-input control nodes, alphabet + Activate|Relax(3,0) + RecursiveSteps; control nodes with 0 / 1 / 2 outputs; {input, 2 hidden, output} up to 3 links with both weights per link (depth family); {input, hidden, output} and {input, bias, output} up to 1 link WITH dead parts (unreachable neurons, link-less networks) and zero-step calls (ForwardSteps(0), ActivateSteps(0) | Relax(0)). Thorough adds: up to 3 links on the first shape with one- and two-input modules, 3 links under two control nodes, the recurrent family on {input, bias, hidden, output} with two schemes and histories of 3 calls, bias shapes ({input, bias, 2 hidden, output}, {2 inputs, hidden, 2 outputs}, {input, 2 bias, hidden, output}) with one- to three-input modules and 3 schemes, weights {-1, 1, 2} and sensor-fed modules in the depth family, and five model-sanity runs (each `should` statement must FAIL on the as-coded model). Per history the replayer runs a rotating selection of the network's suffixes (3 quick / 4 thorough) against a fresh twin, plus every suffix as its own history. OBSERVATIONS (recorded in coverage.modular.observations with the smallest network seen, never a violation; each is also a `should` invariant that TLC refutes on the model): (1) fast solver: a control node fed DIRECTLY by a sensor (input or bias) reads 0 - forwardStep takes the module inputs from neuronSignalsBeingProcessed, which LoadSensors never writes (fast_network.go:276) - while the standard solver reads the sensor value; the two solvers disagree for ever (e.g. input 1 -> mul control node -> hidden 5 -> output 8: Network -2, fast 0). The library's own modular test network feeds its module through hidden linear relay nodes. (2) both solvers: the order of Network.controlNodes matters - a control node reading the output node of a control node LATER in the list never sees that module's value, because the output node is re-activated from its own (absent) links before the modules run in the next sweep; the solvers agree with each other but never reach the topological value. (3) MaxActivationDepth() of a modular network (network.go:490) is the edge count of a minimum-WEIGHT path (gonum JohnsonAllPaths + AllBetween with connection weights as costs, control nodes counted as vertices), not the longest path: it over-counts two edges per control node and under-counts as soon as a lighter shorter path exists (1 -> 8 with weight -1 next to 1 -> 5 -> [mul] -> 6 -> 8: depth 1, two steps needed), so ForwardSteps(MaxActivationDepth()) may stop early; documented as `the maximum number of neuron layers`. (4) RecursiveSteps is unusable on modular networks for BOTH implementations of Solver (Network: MaxActivationDepthWithCap refuses; fast: refuses when modules exist), and Network.Relax is not implemented - only ForwardSteps / ActivateSteps / fast Relax work. (5) a control node with two outgoing links: the standard solver returns an error, the fast solver PANICS (index out of range, fast_network.go:281) after writing the first output; with no outgoing link the standard solver errors and the fast solver carries on. (6) Network.Flush walks allNodes, which excludes control nodes: their isActive stays raised (unobservable through the API). (7) the module's output node does NOT pass the module value through its own activation function, and any ordinary links into it are dead; in the standard solver that node is activated twice per sweep (ActivationsCount +2, lastActivation = activation(0 + its links)), so time-delayed links out of a module output read that intermediate value. Not covered: modules with no input (max -> -Inf, min -> MaxFloat64), control nodes writing sensors, parallel links, non-integer values (C12's float rounds cover the arithmetic of ordinary neurons), NaN. Trusted: TLC, the replayer's construction of networks / genomes, the verif accessors VerifState (internal level only).",
   technique=B2),
 }
 
 QUICK = ["MC_ModularAct.cfg", "MC_ModularAct_two.cfg", "MC_ModularAct_rec.cfg", "MC_ModularAct_arity.cfg",
-         "MC_ModularAct_depth.cfg"]
+         "MC_ModularAct_depth.cfg", "MC_ModularAct_loose.cfg"]
 THOROUGH = ["MC_ModularAct_thorough.cfg", "MC_ModularAct_two_thorough.cfg", "MC_ModularAct_rec_thorough.cfg",
-            "MC_ModularAct_bias_thorough.cfg", "MC_ModularAct_arity.cfg", "MC_ModularAct_depth_thorough.cfg"]
+            "MC_ModularAct_bias_thorough.cfg", "MC_ModularAct_arity.cfg", "MC_ModularAct_depth_thorough.cfg",
+            "MC_ModularAct_loose.cfg"]
 SHOULD = [("MC_ModularAct_should_sensor.cfg", "ShouldSensorFed", "observation 1: the fast solver does not settle on the definition when a control node is fed by a sensor"),
           ("MC_ModularAct_should_order.cfg", "ShouldAnyOrder", "observation 2: the list order of the control nodes matters"),
           ("MC_ModularAct_should_depth.cfg", "ShouldDepthSuffice", "observation 3: MaxActivationDepth() steps are not always enough"),
@@ -78,7 +79,7 @@ def _run(ctx, replay, module, cfgs, command, cases_name, kind, extra_args=None, 
 @pipeline("X07")
 def x07(ctx, replay):
     thorough = ctx.tier == "thorough" or (replay is not None and replay.get("tier") == "thorough")
-    ctx.rule = ("MC_ModularAct (5 / 6 configurations): every modular network in scope (one `net` case with the classes, Need, "
+    ctx.rule = ("MC_ModularAct (6 / 7 configurations): every modular network in scope (one `net` case with the classes, Need, "
                 "counts, depth and the topological value of every input vector), every history of API calls (with the complete "
                 "predicted state of both solvers after EVERY call and after Flush) and every suffix (predicted state of the "
                 "flushed instance after every call); each network is built three ways on the real code, every history is "
@@ -96,5 +97,5 @@ def x07(ctx, replay):
                        "is compared as information: a difference there alone is never a violation",
                        "a panic of the fast solver on a control node with two outputs is specified as coded (observation 5)"]
     _run(ctx, replay, "MC_ModularAct", THOROUGH if thorough else QUICK, "replay-modular", "modular_cases.ndjson", "modular",
-         extra_args=["-maxpairs", "4" if thorough else "3"], timeout=2400, par=3 if thorough else 5,
+         extra_args=["-maxpairs", "4" if thorough else "3"], timeout=2400, par=3 if thorough else 6,
          should=SHOULD if (thorough and replay is None) else ())
